@@ -20,9 +20,11 @@ def run(tier):
     r = C.tlc("JlsLinks", "JlsLinks_mc.cfg", timeout=1200)
     if not ck.add_mc("JlsLinks per-write steps MaxChunks=6", r):
         ck.violation({"where": "model", "config": "JlsLinks_mc", "invariant": r.violated})
+    crashcheck.ts_repair_model(ck, thorough)
     P = crashcheck.crash_programs(rng, 120 if thorough else 30, thorough, "c19", ck=ck)
     trace, v, nobs = crashcheck.run_crash(ck, P, "c19", {"C19"})
     crashcheck.repair_conformance(ck, trace, "C19")
+    crashcheck.ts_repair_conformance(ck, trace, "C19")
     ck.cov["distinct_nontrivial"] = sum(1 for l in open(trace) if l.startswith('{"e":"CrashObs"') and '"rc":0' in l)
     ck.cov["closed_files_read"] = sum(1 for l in open(trace) if l.startswith('{"e":"Unchanged"'))
     ck.cov["rule"] = "one case per crash image that opened (then reopened twice) and per closed file read; non-trivial = images that opened"
